@@ -264,6 +264,11 @@ class Check:
             else:
                 rec['why'] = f'model does not reproduce natively; native result: {json.dumps(res)[:400]}'
                 unconf.append(rec)
+                try:
+                    os.makedirs(os.path.join(EVID, 'replays'), exist_ok=True)
+                    json.dump(rec, open(os.path.join(EVID, 'replays', f'unconfirmed-{self.pid}-{len(unconf)}.json'), 'w'), indent=1, default=str)
+                except Exception:
+                    pass
         h['confirmed'], h['unconfirmed'] = conf, unconf
         h['counterexamples'] = len(conf) + len(unconf)
         return h
